@@ -478,6 +478,23 @@ def _child_guard(ctx, v, fv, cb):
               "every `Some(child)` exit of the child function must be guarded by the true arm of the CHECK comparison")
 
 
+def ttj_state_local(body, tj):
+    """the user-level local holding the walk state: argument 1 of the child call, copies chased"""
+    a = tj["args"][1]
+    if a["k"] not in ("copy", "move") or a["place"]["proj"]:
+        return None
+    l = a["place"]["local"]
+    for _ in range(4):
+        if l in body.local_names or l <= body.arg_count:
+            break
+        ds = body.defs().get(l, [])
+        if len(ds) == 1 and ds[0][0] == "rv" and ds[0][3]["k"] == "use" and ds[0][3]["op"]["k"] in ("copy", "move") and not ds[0][3]["op"]["place"]["proj"]:
+            l = ds[0][3]["op"]["place"]["local"]
+        else:
+            break
+    return l
+
+
 def _trans_fn(ctx, v, roles, tb, allowed):
     lib = ctx.lib
     fv = FnView(lib, tb)
@@ -531,6 +548,31 @@ def _trans_fn(ctx, v, roles, tb, allowed):
             want = "payload of mapper.get(c)"
         ctx.check(okl, "TRANS-LOOP", vw.body, "label:" + tag, vw.body.loc(bi),
                   "label fed to the child function must be %s; found %s" % (want, show(lab)), show(lab))
+    # the walk advances on every trip: each cycle through the child call passes an assignment `state := fail(states[state])`
+    if childcalls:
+        cbb = childcalls[0][1]
+        adv_blocks = []
+        for bi_, si_, st_ in tb.stmts():
+            if st_["k"] == "assign" and not st_["lhs"]["proj"]:
+                t_ = pnorm(root.T.rvalue(st_["rv"]))
+                if t_[0] == "call" and t_[1] == v.S + "::fail" and tb.in_cycle(bi_):
+                    adv_blocks.append(bi_)
+        # also `state = self.states[..].fail()` written directly from the call destination
+        for vw_, bi_, c_, tj_ in fv.calls(lambda c: c.adt == v.S and c.name == "fail"):
+            if vw_ is root and tb.in_cycle(bi_):
+                adv_blocks.append(bi_)
+        stuck = tb.reaches(cbb, cbb, avoid=set(adv_blocks)) if adv_blocks else True
+        # every assignment to the loop state inside the cycle must be the fail value (no conditional keep)
+        ctx.check(not stuck, "TRANS-LOOP", tb, "walk-advances:" + tag, tb.span,
+                  "every trip around the fail walk must read fail(states[state]) (a trip that keeps the state would spin forever)")
+        if adv_blocks:
+            # the value read is what the next trip uses: the loop state local is (re)assigned on every path from the read back to the child call
+            stl = ttj_state_local(tb, childcalls[0][3])
+            if stl is not None:
+                assigns = [bi_ for bi_, si_, st_ in tb.stmts() if st_["k"] == "assign" and not st_["lhs"]["proj"] and st_["lhs"]["local"] == stl and tb.in_cycle(bi_)]
+                ok_adv = bool(assigns) and not tb.reaches(cbb, cbb, avoid=set(assigns))
+                ctx.check(ok_adv, "TRANS-LOOP", tb, "state-reassigned-every-trip:" + tag, tb.span,
+                          "on every path back to the child lookup the loop state must have been replaced by the fail link")
     # ROOT exit: a `return ROOT` guarded by state == ROOT, inside the loop
     b = tb
     eq_root = switches_on(root, lambda d: d[0] == "bin" and d[1] == "Eq" and
